@@ -11,7 +11,7 @@ Protocol (one line = one history):
            "extend": "loads_and_changes"|"changes", "threshold": null|[num,den],
            "cookie": {"name","domain","path","secure","http_only","same_site","kind"},
            "crypto": {"alg": "none"|"sign"|"encrypt", "name": <cookie name the rule is registered for>}},
-   "requests": [{"src": "jar"|"none"|j, "expire": bool, "rem": secs, "ops": [[op, key?, value?], ...]}]}
+   "requests": [{"src": "jar"|"none"|"tampered"|j, "expire": bool, "rem": secs, "ops": [[op, key?, value?], ...]}]}
 answer: {"r":"ok","reqs":[{"in": id|null, "res":[...], "fin":{...}, "log":[store ops], "store":[[id,{..}]], "leak":bool}]}
 
 The oracle below is a plain pair-of-maps reference (client map, server map, a few status bits; no ids, no
@@ -110,7 +110,7 @@ def gen_requests(rng, cfg, nreq=None):
         if rng.random() < 0.35:  # read everything at the end of the request
             ops += [["s.get", k] for k in KEYS] + [["c.get", k] for k in KEYS]
         r = rng.random()
-        src = "jar" if r < 0.85 or i == 0 else ("none" if r < 0.9 else rng.randrange(i))
+        src = "jar" if r < 0.85 or i == 0 else ("none" if r < 0.88 else ("tampered" if r < 0.91 else rng.randrange(i)))
         reqs.append({"src": src, "expire": rng.random() < 0.04, "rem": gen_rem(rng, cfg), "ops": ops})
     return reqs
 
@@ -139,7 +139,7 @@ class Ref:
     def request(self, rq):
         cfg = self.cfg
         src = rq.get("src", "jar")
-        presented = self.jar if src == "jar" else (None if src == "none" else
+        presented = self.jar if src == "jar" else (None if src in ("none", "tampered") else
                                                    (self.issued[src] if src < len(self.issued) else None))
         if rq.get("expire") and presented is not None:
             self.world.pop(presented[0], None)
@@ -409,7 +409,7 @@ def case_key(c):
 
 
 RULE = ("all 2x2x2 state policies x thresholds {none,0,1/8,1/4,1/2,3/4,1} x ttl {64,800,86400}; 1-8 requests, 0-12(+6) ops each "
-        "over keys {a,b,c} and JSON values incl. null; cookie source jar(85%)/none/replay of an older cookie; 4% external expiry; "
+        "over keys {a,b,c} and JSON values incl. null; cookie source jar(85%)/none/tampered value/replay of an older cookie; 4% external expiry; "
         "remaining TTL biased to threshold-1..threshold+1; 15% typed API variants. non-trivial = at least 2 requests, a later request "
         "runs on a session carried by a cookie, and at least one successful store write; distinct by full input")
 
